@@ -43,7 +43,11 @@ static void point(void) {
     if (!finished[cur]) en[n++] = cur;
     for (int t = 0; t < NT; t++) if (t != cur && !finished[t]) en[n++] = t;
     if (n == 0) return;
-    if (step >= MAXP) { points_overflow = 1; return; }     /* keep running without further switching; the race oracle still sees every access */
+    if (step >= MAXP) {          /* keep running without further switching; the race oracle still sees every access */
+        points_overflow = 1;
+        if (!finished[cur]) return;
+        int nx = en[0], me = cur; cur = nx; (void)me; sem_post(&baton[nx]); return;      /* a finished thread must still hand the baton on */
+    }
     int running_enabled = !finished[cur];
     int navail = n;
     if (PB >= 0 && running_enabled && preempts >= PB) navail = 1;      /* no preemption budget left: keep running */
